@@ -93,6 +93,12 @@ check("C17", "model_checking",
       "exhaustive cut-set enumeration + delay-bounded schedule DFS of concurrent writers",
       "DESIGN.md §4 C17")
 
+check("C19", "model_checking",
+      "The full product of a node-URI override grammar (absent; 3 schemes x 6 user parts x 6 hosts incl. IPv6 literal, unspecified and empty x 4 ports x 3 tails) and 5 connection source addresses (IPv4, IPv6, IPv6 loopback, empty, service without RemoteAddr) is registered through the real signed vipnode_connect and vipnode_host (~13 000 registrations); accepted registrations must store an enode URI whose id is the authenticated node id and whose host:port splits back (net.SplitHostPort) to the supplied or default address with default port 30303, the same URI must be handed to a client by vipnode_peer; foreign ids and undeterminable hosts must be refused leaving no node and no registered connection; well-formed own-id overrides must be accepted.",
+      "Finite grammar; scheme-less overrides are not URIs and only their identity handling is judged.",
+      "exhaustive input-grammar enumeration with parse-back oracle",
+      "DESIGN.md §4 C19")
+
 ALL = ["C%02d" % i for i in range(1, 21)]
 NA_REASON = "check not built yet (work in progress; see DESIGN.md §4 for the planned model-checking design)"
 
